@@ -52,6 +52,60 @@ def _cell(i1, i2):
     return True, None
 
 
+def _cell_history(i1, i2):
+    """Context-freeness: two buffers allocated once and refilled in place between calls (a caller's work buffers), and fresh arrays of
+    the same shape in between; every call must return the value for the *current* contents, whichever of the two functions is called first."""
+    dt1, dt2 = DTYPES[i1], DTYPES[i2]
+    top = min(int(np.iinfo(dt1).max), int(np.iinfo(dt2).max))
+    for n, m in ((6, 9), (1, 1), (3, 3), (9, 2)):
+        A, B = np.zeros(n, dtype=dt1), np.zeros(m, dtype=dt2)
+        fills = [(list(range(1, n + 1)), list(range(1, m + 1))),                          # nested
+                 (list(range(1, n + 1)), list(range(n + 1, n + m + 1))),                    # disjoint
+                 (list(range(top - n + 1, top + 1)), list(range(top - m + 1, top + 1))),    # nested at the top of the range
+                 (list(range(2, 2 * n + 1, 2)), list(range(3, 3 * m + 1, 3))),              # partial overlap
+                 (list(range(1, n + 1)), list(range(1, m + 1)))]                            # first contents again
+        for step, (a, b) in enumerate(fills):
+            scratchdir.count_cell(f'history {dt1}x{dt2} {n}v{m} step {step}')
+            A[:] = a
+            B[:] = b
+            want = J.py_dist(a, b)
+            calls = (gmetric.jaccarddist, gmetric.jaccard) if step % 2 == 0 else (gmetric.jaccard, gmetric.jaccarddist)
+            got = {}
+            for f in calls:
+                try:
+                    got[f.__name__] = f(A, B)
+                except Exception as e:   # noqa
+                    return False, {'history': f'buffers of {n} {dt1} / {m} {dt2} refilled in place, step {step}', 'a': a, 'b': b, 'why': f'{f.__name__} raised {type(e).__name__}: {e}'}
+            d, s = got['jaccarddist'], got['jaccard']
+            ok_d = np.float32(d).tobytes() == np.float32(want).tobytes()
+            ok_s = float(s) in (float(np.float32(1) - want), 1.0 - float(want))
+            # the same contents in freshly allocated arrays must give the same answer - asked only after the last fill, so that no call on
+            # another pair of arrays comes between two calls on the same buffers
+            ok_f = step < len(fills) - 1 or np.float32(gmetric.jaccarddist(np.array(a, dtype=dt1), np.array(b, dtype=dt2))).tobytes() == np.float32(want).tobytes()
+            if not (ok_d and ok_s and ok_f):
+                return False, {'history': f'buffers of {n} {dt1} / {m} {dt2} allocated once and refilled in place; this is fill number {step} (earlier fills: {fills[:step]})', 'a': a, 'b': b,
+                               'jaccarddist': repr(d), 'jaccard': repr(s), 'fresh arrays ok': ok_f, 'exact distance rounded once': repr(want)}
+    return True, None
+
+
+def _run_history(i1, i2):
+    a = (fork_int(i1, 0, len(DTYPES) - 1), fork_int(i2, 0, len(DTYPES) - 1))
+    with NoTracing():
+        return _cell_history(*a)
+
+
+def _c02_history(i1: int, i2: int) -> bool:
+    """
+    pre: 0 <= i1 < len(DTYPES) and 0 <= i2 < len(DTYPES)
+    post: _
+    """
+    return _run_history(i1, i2)[0]
+
+
+def explain_c02_history(i1, i2):
+    return _run_history(i1, i2)[1]
+
+
 def _run(i1, i2):
     a = (fork_int(i1, 0, len(DTYPES) - 1), fork_int(i2, 0, len(DTYPES) - 1))
     with NoTracing():
